@@ -28,11 +28,15 @@ EXPLANATION = (
     "ledger; loop progress witnesses; Font::shape has no early return — every fallible step's Result flows into check_set_err and every return "
     "is dominated by Info::init_from_glyphs, so an error is always accompanied by the best-effort run; every Ok path of the two GSUB drivers "
     "passes replace_missing_glyphs, so ids are clamped to the glyph count; and the tag tables agree: every script tag that ScriptType::from "
-    "sends to the Indic shaper has an arm in indic::script and indic::indic2_tag (whose fallback arms panic)."
+    "sends to the Indic shaper has an arm in indic::script and indic::indic2_tag (whose fallback arms panic). Element indexing (C02-i) and "
+    "overflow-checked arithmetic (C02-o) of the shaping modules are decided as in C01 (local discharge or independently audited ledger); the "
+    "lookup caches keep their index discipline (C02-s: sentinel list, never shrunk, remembered index = length before the push); every "
+    "attachment index stored in a gpos::Placement was bounds-checked against the glyph buffer when the placement was built, is an enumerate "
+    "position, or is copied from a Placement (C02-f), and the buffer is a slice that cannot shrink afterwards."
 )
 NOT_DECIDED = (
-    "implicit panics from indexing and arithmetic in the reordering machines (as C01), that attachments refer to glyphs inside the run beyond the "
-    "panic discipline, and that the characters attributed to glyphs are characters of the input (value properties) are not decided."
+    "that the characters attributed to glyphs are characters of the input, that glyph ids of well-formed fonts are below the glyph count beyond "
+    "the clamp, and add/mul overflow in 64-bit types are not decided."
 )
 ASSUMPTIONS = ["RefCell panics exactly when a conflicting guard is alive (std contract)", "std/core functions panic only as documented"]
 
